@@ -272,6 +272,11 @@ class Driver:
             if self.flavour == "mqtt":
                 topic, payload, qos = self.mqtt_inbound(text)
                 gw.tasks.transport.recv(topic, payload, qos)
+            elif self.flavour == "synct" and "\n" not in text:
+                # the real reader path: bytes arrive in reads of at most 120 bytes (what the TCP reader asks for)
+                data = text.encode("utf-8") + b"\n"
+                for pos in range(0, len(data), 120):
+                    self.transport.protocol.data_received(data[pos:pos + 120])
             else:
                 gw.tasks.add_job(gw.logic, text)
         except Exception as exc:  # pylint: disable=broad-except
